@@ -42,21 +42,21 @@ type Violation struct {
 }
 
 type Stats struct {
-	Execs       int64
-	Steps       int64
-	Points      int64
-	Pruned      int64
-	States      map[uint64]struct{}
-	Outcomes    map[string]int64
-	Deadlocks   int64
-	Horizons    int64
-	MaxDev      int
-	Capped      string
-	Samples     []string
-	Violations  []Violation
-	ToolErr     string
-	Replayed    int64 // executions re-run to validate determinism
-	DevHist     map[string]int64
+	Execs      int64
+	Steps      int64
+	Points     int64
+	Pruned     int64
+	States     map[uint64]struct{}
+	Outcomes   map[string]int64
+	Deadlocks  int64
+	Horizons   int64
+	MaxDev     int
+	Capped     string
+	Samples    []string
+	Violations []Violation
+	ToolErr    string
+	Replayed   int64 // executions re-run to validate determinism
+	DevHist    map[string]int64
 }
 
 func NewStats() *Stats {
@@ -64,16 +64,16 @@ func NewStats() *Stats {
 }
 
 type Explorer struct {
-	Exec      ExecFn
-	Budget    Budget
-	Shard     int
-	NShards   int
-	Deadline  time.Time
-	MaxExecs  int64
-	MaxViol   int
-	St        *Stats
-	stop      bool
-	sigSeen   map[string]bool
+	Exec     ExecFn
+	Budget   Budget
+	Shard    int
+	NShards  int
+	Deadline time.Time
+	MaxExecs int64
+	MaxViol  int
+	St       *Stats
+	stop     bool
+	sigSeen  map[string]bool
 }
 
 func (e *Explorer) classify(p PointRec, alt int) (kind string, cost int) {
